@@ -1,4 +1,6 @@
 CONSTANTS
+  Namings = {"far", "prefix", "case"}
+  Orders = {"as_named", "crossed"}
   Places = {"same_file", "other_crate"}
   Items = {"s_plain", "s_opt", "s_cont", "s_cont2", "s_kebab", "s_generic", "e_unit", "e_unit_renamed", "e_tagged", "e_tagged_generic", "alias", "alias_cont", "s_doc", "s_unit_field", "s_keyword", "s_dashed_last_word"}
   MaxNeighbours = 1
